@@ -237,7 +237,7 @@ theorem nl_foldl_addS2 (cs : List Str) (svc : SUnit) :
 
 theorem nl_fromVolume (E : Env) (path : Str) (u svc : SUnit) (n : Str) (h : fromVolume E path u = .ok (svc, n)) :
     NLfree (preService path u (s "Volume") (s "X-Volume")) svc := by
-  unfold fromVolume at h
+  unfold fromVolume volumeOpts at h
   simp only [bind_ok] at h
   obtain ⟨_, _, _, _, x, hx, svc1, hexec, hfin⟩ := h
   simp only [pure, Except.pure, Except.ok.injEq, Prod.mk.injEq] at hfin
